@@ -24,6 +24,13 @@ def history_msgs(name):
     if name == 'twelve':
         u = ms.UNIVERSE
         return u[:8] + u[45:49]      # 8 lines of connection 1 (incl. delete_id) + 4 of connection 2
+    if name == 'universe_live_commands':
+        u = list(ms.UNIVERSE)
+        # messages on objects the log never showed being created, on both connections
+        u.insert(20, {'sent': True, 'iface': 'zz_q', 'id': 77, 'name': 'foo', 'args': [['int', 1]], 'queue': None, 'conn': '1'})
+        u.insert(52, {'sent': False, 'iface': 'zz_q', 'id': 77, 'name': 'bar', 'args': [], 'queue': None, 'conn': '2'})
+        u.append({'sent': True, 'iface': 'zz_q', 'id': 78, 'name': 'foo', 'args': [['int', 2]], 'queue': None, 'conn': '1'})
+        return u
     return ms.UNIVERSE[:HISTORIES[name]]
 
 
@@ -63,7 +70,7 @@ def evaluate(case):
                     s.cmd('filter ! .commit' if fi != 2 else 'filter wl_surface')
                 elif n == 50:
                     s.cmd('connection B')
-                elif n == 54:
+                elif n == 56:
                     s.cmd('connection all')
             s.feed_line(l)
             o, _ = s2.feed_line(l)
@@ -151,6 +158,32 @@ def evaluate(case):
                 transitions=12)
 
 
+def eval_long_history(case):
+    """One long session: every message stays recorded and listable (a bounded history would lose the oldest)."""
+    V = []
+    n = case['messages']
+    try:
+        s = sut.Session(filt='wl_callback.done')
+        s.feed_line('[1000.000] <1>  -> wl_display@1.get_registry(new id wl_registry@2)')
+        s.feed_line('[1000.000] <2>  -> wl_display@1.get_registry(new id wl_registry@2)')
+        import io
+        text = ''.join('[%d.%03d] <%d> wl_registry@2.global(%d, "i%d", 1)\n' % (1000 + k // 1000, k % 1000, 1 + k % 2, k, k) for k in range(n))
+        s.parser.parse_all(io.StringIO(text))
+        s.take()
+        o, e = s.cmd('list .get_registry')
+        listed = [x for x in o if outparse.classify(x)[0] == 'message']
+        counts = [r for c, r in map(outparse.classify, o) if c == 'count']
+        if len(listed) != 2 or not counts or counts[0]['matched'] + counts[0]['didnt'] + counts[0]['notchecked'] != n + 2:
+            V.append(Violation('list.long_history', case, {'listed': len(listed), 'counts': counts, 'recorded': n + 2}))
+        o, e = s.cmd('list wl_registry.global ~ 3')
+        listed = [x for x in o if outparse.classify(x)[0] == 'message']
+        if len(listed) != 3 or ('"i%d"' % (n - 1)).replace('"', "'") not in listed[-1]:
+            V.append(Violation('list.long_history', case, {'last_three': listed}))
+    except Exception:
+        V.append(sut.exc_violation(case))
+    return Eval(V, nontrivial=True, transitions=n)
+
+
 def gen_cases(tier):
     matchers = ['absent', '*', '!', 'bad'] + [list(m) for m in (MATCHERS[:9] if tier == 'quick' else MATCHERS)]
     caps = ['absent', 0, 1, 2, 'k-1', 'k', 'k+1', 99] + ([3, 7] if tier != 'quick' else [])
@@ -169,6 +202,9 @@ def run(run, tier, seed):
     res = explore.prod(lambda: gen_cases(tier), evaluate, seed=seed,
                        bound={'histories': list(HISTORIES), 'filters': [f[0] for f in FILTERS]})
     run.add_part('queries', res)
+    res = explore.prod(lambda: iter([{'messages': 3000 if tier == 'quick' else 70000}]), eval_long_history, workers=1,
+                       bound={'messages': 3000 if tier == 'quick' else 70000})
+    run.add_part('long_history', res)
     run.rule = ('histories {0,1,12,universe messages} x current filter x selected connection x matcher x cap; each query '
                 'issued three times around a different query; non-trivial = a cap >= 1 on a non-empty history')
     run.bound = res.bound
@@ -179,4 +215,6 @@ def run(run, tier, seed):
 def replay(case):
     sut.bind()
     sut.ensure_protocols()
+    if 'messages' in case:
+        return eval_long_history(case).viols
     return evaluate(case).viols
